@@ -39,9 +39,11 @@ for d in md.*; do [ -d "$d/new" ] && printf '%s=%s,' "$d" "$(ls "$d/new" | wc -l
 printf 'q=%s\0' "$(ls "$R" | grep -c 'msg$')"
 printf '\001'
 } >> "$L"
+# 1000+N: die by signal N (the shell execs this script, so it is the instruction's own process that is killed)
+if [ "$X" -gt 1000 ]; then kill -$((X-1000)) $$; sleep 5; fi
 exit "$X"
 '''
-EXIT_CODES = [0] * 14 + [99, 99, 99, 100, 111, 64, 65, 70, 76, 77, 78, 112, 1, 2, 255, 98, 101, 110, 113, 126, 127]
+EXIT_CODES = [0] * 14 + [99, 99, 99, 100, 111, 64, 65, 70, 76, 77, 78, 112, 1, 2, 255, 98, 101, 110, 113, 126, 127, 1009, 1011, 1015]
 NAMES = [b".qmail", b".qmail-a", b".qmail-a-default", b".qmail-a-b", b".qmail-default", b".qmail-a:b",
          b".qmail-a-b-default", b".qmail-x-", b".qmail-a-b-c", b".qmail-a-owner", b".qmail-a-owner-default",
          b".qmail-a-b-owner", b".qmail-owner", b".qmail-x-default", b".qmail-a-b-c-default", b".qmail-a:b-default",
